@@ -171,10 +171,63 @@ pub fn run(ctx: &Ctx) -> Report {
         }
     }
     rep.absorb(acc);
-    rep.evaluations = rep.transitions + rep.acc.get("byte_strings") + rep.acc.get("integers");
+    // (d) substring windows, in range and out of range, of a parent at several heap positions, followed by the
+    //     history "checkpoint, allocate X, restore, allocate Y": whatever node the call hands out must keep the
+    //     bytes it had when it was created (an out-of-range window may be rejected, but an accepted one must not
+    //     alias bytes that later allocations overwrite)
+    {
+        let mut acc = Acc::default();
+        let pres: Vec<Vec<Vec<u8>>> = vec![vec![], vec![vec![0x50; 5]], vec![vec![0x50; 5], vec![0x51; 1100]]];
+        let parents: Vec<Vec<u8>> = vec![vec![0x80], vec![0xff, 0xff], vec![9, 8, 7, 6, 5], vec![0x81, 2, 3, 4, 5, 6, 7, 8, 9], vec![0x61; 40]];
+        for pre in &pres {
+            for parent in &parents {
+                let len = parent.len() as u32;
+                for s0 in 0..=len + 3 {
+                    for e0 in s0..=len + 12 {
+                        let canon = format!("allocations {:?} then parent {} then new_substr({s0},{e0}) ; checkpoint ; new_atom(16 x 58) ; restore ; new_atom(16 x 59)", pre.iter().map(|b| b.len()).collect::<Vec<_>>(), hx(parent));
+                        guarded(&mut acc, &canon, |acc| {
+                            let mut a = Allocator::new();
+                            for b in pre {
+                                a.new_atom(b).unwrap();
+                            }
+                            let p = a.new_atom(parent).unwrap();
+                            acc.inc("substr_history_cases");
+                            let Ok(n) = a.new_substr(p, s0, e0) else {
+                                if e0 <= len {
+                                    acc.violation(canon.clone(), "in-range substring rejected".into());
+                                }
+                                return;
+                            };
+                            let snap = a.atom(n).as_ref().to_vec();
+                            if e0 <= len {
+                                if snap != parent[s0 as usize..e0 as usize] {
+                                    acc.violation(canon.clone(), format!("substring bytes {} != parent[{s0}..{e0}]", hx(&snap)));
+                                }
+                            } else {
+                                acc.inc("out_of_range_window_accepted");
+                            }
+                            let cp = a.checkpoint();
+                            a.new_atom(&[0x58; 16]).unwrap();
+                            a.restore_checkpoint(&cp);
+                            a.new_atom(&[0x59; 16]).unwrap();
+                            let now = a.atom(n).as_ref().to_vec();
+                            if now != snap || a.atom_len(n) != snap.len() {
+                                acc.violation(canon.clone(), format!("node bytes changed from {} to {} after a later allocation", hx(&snap), hx(&now)));
+                            }
+                            if a.atom(p).as_ref() != &parent[..] {
+                                acc.violation(canon.clone(), "parent bytes changed".into());
+                            }
+                        });
+                    }
+                }
+            }
+        }
+        rep.absorb(acc);
+    }
+    rep.evaluations = rep.transitions + rep.acc.get("byte_strings") + rep.acc.get("integers") + rep.acc.get("substr_history_cases");
     rep.traces = rep.evaluations;
     rep.nontrivial = rep.states + rep.acc.get("small_views") + rep.acc.get("integers");
     let nfirst = firsts.len();
-    rep.rule = format!("(a) the allocator BFS of C12 (depth {depth}) with the content oracle: after every transition every handle still valid per the model (including handles older than a restored checkpoint) reads back its recorded bytes/children through atom, atom_len, sexp, small_number, number, and atom_eq equals byte equality on every pair of live atoms; (b) fits_in_small_atom / small_number / new_atom for every byte string of BYTES(3), 4-byte strings ({nfirst} first bytes x 2^{tail_bits} tails; thorough = all 2^32), BYTES(6,{{00,01,7f,80,ff}}), in inline and heap representation, against an independent minimal-encoding oracle; new_number/new_malachite_number/new_u64/new_i64/new_small_number for every integer in [-{ib},{ib}] and +-2^k+-d (k<=120): bytes == independent minimal two's-complement encoding and read back equal. Non-trivial = distinct BFS states + byte strings that have a small-integer view + integers.");
+    rep.rule = format!("(a) the allocator BFS of C12 (depth {depth}) with the content oracle: after every transition every handle still valid per the model (including handles older than a restored checkpoint) reads back its recorded bytes/children through atom, atom_len, sexp, small_number, number, and atom_eq equals byte equality on every pair of live atoms; (b) fits_in_small_atom / small_number / new_atom for every byte string of BYTES(3), 4-byte strings ({nfirst} first bytes x 2^{tail_bits} tails; thorough = all 2^32), BYTES(6,{{00,01,7f,80,ff}}), in inline and heap representation, against an independent minimal-encoding oracle; new_number/new_malachite_number/new_u64/new_i64/new_small_number for every integer in [-{ib},{ib}] and +-2^k+-d (k<=120): bytes == independent minimal two's-complement encoding and read back equal. (d) every substring window (start <= len+3, end <= len+12) of 5 parents at 3 heap positions followed by checkpoint / allocate / restore / allocate: the node handed out keeps its bytes. Non-trivial = distinct BFS states + byte strings that have a small-integer view + integers.");
     rep
 }
